@@ -863,6 +863,56 @@ def userjs_rule(ctx, sites):
     return obs
 
 
+def balance_rule(ctx):
+    """C02.balance: on every control-flow path, the text an emitter writes is bracket-balanced (lib/dyck.py)"""
+    import dyck
+    ob = ctx.ob
+    tc = ctx.tc
+    fns = [f for f in tc.fns if f.body and f.module[:1] in (["proc_gen"], ["group"], ["binding_map"])]
+    A = dyck.Analyzer(tc, fns)
+    obs = []
+    for f in fns:
+        A.summary(f)
+    n = 0
+    for f in fns:
+        summ = A.summaries[f.qual]
+        probs = list(A.problems.get(f.qual, []))
+        bad = sorted(x for x in summ if x != ("", ""))
+        if bad:
+            probs.append("some path leaves the emitted text unbalanced: %s" % ", ".join("closes `%s` it never opened / leaves `%s` open" % b for b in bad[:4]))
+        if f.qual not in A.nontrivial and not probs:
+            continue
+        n += 1
+        obs.append(ob("C02.balance/%s" % f.qual, not probs, ctx.where(f), "; ".join(probs) if probs else "every path writes bracket-balanced text (holes and callees balanced by induction; local string buffers inlined where pasted)",
+                      witness=None if not probs else "a template that drives generation down this path yields JavaScript with a missing or surplus bracket"))
+    if n < 20:
+        obs.append(ob("C02.floor/balance", False, "proc_gen/*.rs", "only %d emitters with bracket text analysed (floor 20)" % n))
+    # constant JavaScript snippets
+    k = 0
+    for item in _const_strings(ctx):
+        name, text = item
+        if not re.search(r"function|=>|\bvar\b", text):
+            continue
+        k += 1
+        msg = dyck.balanced_text(text)
+        obs.append(ob("C02.balance/const/%s" % name, msg is None, "group.rs", "constant JavaScript snippet is bracket-balanced" if msg is None else "constant JavaScript snippet %s" % msg))
+    if k < 6:
+        obs.append(ob("C02.floor/balance-consts", False, "group.rs", "only %d constant JavaScript snippets found (floor 6)" % k))
+    return obs
+
+
+def _const_strings(ctx):
+    """(name, text) for every string literal inside a const/static item of group.rs (runtime helper tables)"""
+    out = []
+    for (mod, name), it in sorted(ctx.tc.consts.items()):
+        if not mod.startswith("group"):
+            continue
+        lits = [x for x in sir.walk(it.get("e") or {}) if x.get("k") == "lit" and x.get("t") == "str"]
+        for i, x in enumerate(lits):
+            out.append(("%s#%d" % (name, i), x["v"]))
+    return out
+
+
 def run(ctx):
     obs, sites = holes_rule(ctx)
     obs += adjacency_rule(ctx)
@@ -877,6 +927,7 @@ def run(ctx):
     obs += validated_ident_rule(ctx)
     obs += ident_rule(ctx, sites)
     obs += sep_rule(ctx)
+    obs += balance_rule(ctx)
     from rules.c03 import float_display_rule
     obs += float_display_rule(ctx, "C02.float")
     return obs
